@@ -1,14 +1,16 @@
-\* generated by the builder of C02/C08; see MCSearchers.tla for the families
+\* generated with the builder script of C02/C08; families: MCSearchers.tla
 SPECIFICATION Spec
 CONSTANTS
-  SegSizes <- Segs22
-  Deleted = {1}
+  SegSizes <- Segs21
+  Deleted = {}
   OneHitEnc = TRUE
-  ScoreNone = FALSE
+  ScoreNone = TRUE
   HeapTakeover = 10
-  MaxCalls = 4
+  MaxCalls = 3
   NTerms = 2
-  Queries <- QFlat2
+  Family = "core2"
+  DropK1 = TRUE
+  Queries <- MCQueries
   FirstAdvanceOK <- FirstAdvNoQ2
 VIEW View
 INVARIANT ResultOK
